@@ -298,3 +298,37 @@ uncovered = FunctionContract(
             ("if molecule.nodes[idx].get('element', '') == 'H'}", "if molecule.nodes[idx].get('element', '') != 'H'}")],
 )
 CONTRACTS.append(uncovered)
+
+
+# ------------------------------------------------------------------ cover: an exact cover by the given options (recursive)
+CItem = TKey('CItem')
+COpts = TSeq(TSet(CItem))
+
+
+def setup_cover(cx):
+    return dict(to_cover=cx.box('to_cover', TSet(CItem)), options=cx.val('options', COpts))
+
+
+cover_fn = FunctionContract(
+    F, 'cover', 'C01', setup=setup_cover, spec_env=dict(CItem=CItem), result_ty=TOpt(COpts),
+    locals=dict(left_to_cover=TSet(CItem), found=TOpt(COpts)),
+    ensures=[
+        # an answer is an exact cover: every item to be covered lies in one of the returned sets, in only one, the returned sets
+        # hold nothing else, and each of them is one of the options (that None means "no cover exists" is not stated)
+        "implies(result is not None, forall(lambda x: implies(x in old(to_cover), exists(lambda j: 0 <= j and j < len(payload(result)) and x in payload(result)[j])), CItem))",
+        "implies(result is not None, forall(lambda x, j, k: implies(0 <= j and j < k and k < len(payload(result)), not (x in payload(result)[j] and x in payload(result)[k])), CItem, TInt, TInt))",
+        "implies(result is not None, forall(lambda x, j: implies(0 <= j and j < len(payload(result)) and x in payload(result)[j], x in old(to_cover)), CItem, TInt))",
+        "implies(result is not None, forall(lambda j: implies(0 <= j and j < len(payload(result)), exists(lambda i: 0 <= i and i < len(options) and "
+        "   forall(lambda x: (x in payload(result)[j]) == (x in options[i]), CItem)))))",
+        # the set to be covered is not changed
+        "forall(lambda x: (x in to_cover) == (x in old(to_cover)), CItem)",
+    ],
+    loops={'L1': LoopSpec(inv=["forall(lambda x: (x in to_cover) == (x in old(to_cover)), CItem)"], modifies=[]),
+           'L1.1': LoopSpec(inv=["forall(lambda x: (x in left_to_cover) == (x in to_cover and not (x in option and _posL1_1(x) < _i)), CItem)"],
+                            modifies=['left_to_cover'])},
+    canary=[("found = cover(left_to_cover, options[idx:])", "found = cover(to_cover, options[idx:])"),
+            ("if all(item in to_cover for item in option):", "if any(item in to_cover for item in option):"),
+            ("return [option] + found", "return found")],
+)
+cover_fn.recursive = True
+CONTRACTS.append(cover_fn)
